@@ -21,9 +21,24 @@ URIS = ["u", "v", "urn:x", "http://a/b", "http://a/?x=1&y=2", "http://a/it's", "
         "http://www.w3.org/2001/XMLSchema-instance", "urn:a&b", "http://x/#frag", "tag:x,2020:y", "a+b", "a;b=c", "~u", "(u)", "u!$*"]
 
 SPECIALS = ["<", ">", "&", '"', "'", "]]>", "&amp;", "&lt;", "&#38;", "<para>", "</para>", "--", "<!--", "?>", "<![CDATA[", "{", "}", "=", "/", ";",
+            # entity-like and reference-like text is ordinary text for the exporters: alone and next to raw markup characters
+            "&quot;", "&apos;", "&#x26;", "&amp", "&;", "&nosuch;", "<?", "&gt;", "&quot;<", "&apos;&", "<&quot;", "&&apos;", "&#60;&", "&lt", "& quot;",
             "\u00a0", "\u0085", "\u2028", "\u3000", "\ud7ff", "\ue000", "\ufffd", "\U00010000", "\U0001F600", "\U0010FFFF", "\x7f", "\x80",
             "\u00e9", "\u6f22", "\u0436"]
 WS_TEXT = [" ", "\t", "\n"]
+
+
+def fresh(x):
+    """a NEW str object with the same value (no interned literal is handed to the implementation)"""
+    return None if x is None else "".join([c for c in x]) if len(x) != 1 else (x + "_")[:1]
+
+
+def freshen(sn):
+    """deep copy of a snapshot in which every string is a fresh object"""
+    return {"id": fresh(sn.get("id")), "name": fresh(sn["name"]), "content": fresh(sn["content"]), "tail": fresh(sn["tail"]),
+            "prefix": fresh(sn["prefix"]), "attrs": [[fresh(k), fresh(v)] for k, v in sn["attrs"]],
+            "extras": [[fresh(k), fresh(v)] for k, v in sn["extras"]], "nsmap": [[fresh(k), fresh(v)] for k, v in sn["nsmap"]],
+            "kids": [freshen(k) for k in sn["kids"]]}
 
 
 def rand_name(rng, avoid=()):
